@@ -112,8 +112,20 @@ ReadPoint(o, cur) ==
 ObsE == Conc([v \in 1..NEv |-> ReadPoint(Ev.obs.E[v], E[v])])
 \* obs.S[v] = Scalar.Encode() bytes
 \* obs.Seq[v] = the stored representation equals the canonical one of that value (probe through Equal)
-ReadScalar(bs, canon) == IF BytesLtN(bs) /\ canon = 1 THEN [st |-> "ok", v |-> OS2IPW(bs)] ELSE [st |-> "invalid", v |-> NZero]
-ObsS == Conc([v \in 1..NSv |-> ReadScalar(Ev.obs.S[v], Ev.obs.Seq[v])])
+\* obs.Sl[v] (when the build lets the harness read them) = the STORED limbs m of the scalar, as 32 big-endian bytes:
+\* the value is then m * 2^-256 mod n whatever Encode says, and Encode / Equal become observers that are
+\* themselves checked against it ("encode-observer", "equal-observer") without stopping the history
+ReadScalar(bs, canon, sl) ==
+  IF Len(sl) = 32
+  THEN IF ~Lt(OS2IP(sl), N_m) THEN [st |-> "invalid", v |-> NZero]
+       ELSE LET val == NMul(OS2IPW(sl), RInvN)
+            IN  IF BytesLtN(bs) /\ OS2IPW(bs) = val
+                THEN [st |-> IF canon = 1 THEN "ok" ELSE "equal-observer", v |-> val]
+                ELSE [st |-> "encode-observer", v |-> val]
+  ELSE IF BytesLtN(bs) /\ canon = 1 THEN [st |-> "ok", v |-> OS2IPW(bs)] ELSE [st |-> "invalid", v |-> NZero]
+HasSl == "Sl" \in DOMAIN Ev.obs
+ObsS == Conc([v \in 1..NSv |-> ReadScalar(Ev.obs.S[v], Ev.obs.Seq[v], IF HasSl THEN Ev.obs.Sl[v] ELSE << >>)])
+ObserverOff(st) == st \in {"encode-observer", "equal-observer"}
 
 PointOfBytes(xb, yb) == C!Pt(OS2IPW(xb), OS2IPW(yb))     \* certificates on E'
 HCert(c) == [q0 |-> PointOfBytes(c.q0x, c.q0y),
@@ -258,6 +270,10 @@ Verdict(oe, os) ==
     THEN << "DISAGREE", IF Ev.op = "ESetRaw" /\ Ev.obs.E[Ev.r].id # AllZero(Ev.z) THEN "isidentity-observer"
                         ELSE IF Ev.op = "ERescale" /\ Ev.obs.E[Ev.r].id # E[Ev.r].inf THEN "isidentity-observer"
                         ELSE "result", 0 >>
+  \* the call itself is right about the stored values; Encode / Equal are wrong about a scalar it wrote
+  ELSE IF \E v \in 1..NSv : ObserverOff(os[v].st) /\ (v \in RecvS(Ev) \/ S'[v] # S[v])
+    THEN LET v == CHOOSE v \in 1..NSv : ObserverOff(os[v].st) /\ (v \in RecvS(Ev) \/ S'[v] # S[v])
+         IN  << "DISAGREE", os[v].st, v >>
   ELSE << "OK", "", 0 >>
 
 RunStep ==
@@ -266,7 +282,7 @@ RunStep ==
   /\ S' = Conc([v \in 1..NSv |-> os[v].v])
   /\ \E verdict \in {Verdict(oe, os)} :
          /\ (verdict[1] # "OK" => PrintT(<< verdict[1], l, Ev.op, verdict[2], verdict[3] >>))
-         /\ mode' = IF verdict[1] = "OK" THEN "run" ELSE "skip"
+         /\ mode' = IF verdict[1] = "OK" \/ ObserverOff(verdict[2]) THEN "run" ELSE "skip"    \* the state is known from the stored limbs: go on
          /\ nbad' = IF verdict[1] = "DISAGREE" THEN nbad + 1 ELSE nbad
          /\ nmach' = IF verdict[1] = "MACHINERY" THEN nmach + 1 ELSE nmach
 
